@@ -39,7 +39,7 @@ def pipe_traces(ctx, n, label="pp"):
         env["VERIF_SEED"] = rp.get("seed", ctx.seed)
     rc, out = ctx.go_test("^TestPipeScenarios$", env=env, timeout=2400)
     traces = vlib.split_traces(vlib.read_ndjson(f_out))
-    if len(traces) < n:
+    if len(traces) < n and not (traces and any(e.get("e") == "crash" for e in traces[-1])):
         raise vlib.Inconclusive("pipe driver produced %d of %d traces:\n%s" % (len(traces), n, out[-1500:]))
     for tr in traces:
         sc = tr[0]["scen"]
